@@ -117,10 +117,21 @@ func (ex *Exec) intrinsic(g *G, f *Frame, fn *ssa.Function, args []Value, call *
 	case "time.Now":
 		// day-number model: "now" is a nondeterministic day
 		t := ex.zero(fn.Signature.Results().At(0).Type()).(Struct)
-		ex.fresh++
-		t[1] = Int{Bits: 64, T: ex.nondetVar(fmt.Sprintf("now_%d", ex.fresh), SBV64)}
-		ex.assume(ex.TS.BVCmp("bvsge", t[1].(Int).T, ex.TS.BVC(0, 64)))
-		ex.assume(ex.TS.BVCmp("bvsle", t[1].(Int).T, ex.TS.BVC(20000, 64)))
+		// one symbolic "today" per run (a run does not span midnight)
+		if ex.Concrete != nil {
+			v, ok := ex.Concrete["now"]
+			if !ok {
+				v = "0"
+			}
+			t[1] = mkInt(parseIntText(v, 64), 64, false)
+			return t, false
+		}
+		first := !ex.nondetSeen["now"]
+		t[1] = Int{Bits: 64, T: ex.nondetVar("now", SBV64)}
+		if first {
+			ex.assume(ex.TS.BVCmp("bvsge", t[1].(Int).T, ex.TS.BVC(0, 64)))
+			ex.assume(ex.TS.BVCmp("bvsle", t[1].(Int).T, ex.TS.BVC(20000, 64)))
+		}
 		return t, false
 	case "(time.Time).Equal":
 		return ex.binop(token.EQL, args[0].(Struct)[1], args[1].(Struct)[1], nil), false
@@ -723,6 +734,10 @@ func (ex *Exec) vrt(g *G, f *Frame, name string, fn *ssa.Function, args []Value)
 		return nil, false
 	case "Reach":
 		label := strArg(args[0])
+		if ex.SkipReach {
+			ex.Reach[label] = true
+			return nil, false
+		}
 		if _, seen := ex.Reach[label]; !seen || !ex.Reach[label] {
 			r, _ := ex.Sol.Check(nil, nil)
 			ex.Reach[label] = r == Sat
@@ -767,6 +782,21 @@ func (ex *Exec) vrt(g *G, f *Frame, name string, fn *ssa.Function, args []Value)
 			}
 		}
 		panic(unsupported{"vrt.SetField: no field " + fld})
+	case "Len":
+		v := args[0].(Iface)
+		if sl, ok := v.V.(Slice); ok {
+			return mkInt(int64(len(sl.A)), 64, false), false
+		}
+		panic(unsupported{"vrt.Len of a non-slice"})
+	case "Index":
+		v := args[0].(Iface)
+		sl, ok := v.V.(Slice)
+		i := int(ex.concInt(args[1], "vrt.Index"))
+		if !ok || i < 0 || i >= len(sl.A) {
+			panic(goPanic{"vrt.Index out of range"})
+		}
+		et := v.T.Underlying().(*types.Slice).Elem()
+		return Iface{T: et, V: copyVal(sl.A[i])}, false
 	case "NumFields":
 		st := derefType(args[0].(Iface).T).Underlying().(*types.Struct)
 		return mkInt(int64(st.NumFields()), 64, false), false
@@ -949,7 +979,7 @@ func (ex *Exec) assertTerm(label string, a *Term, known string) {
 		return
 	}
 	na := ex.TS.Not(a)
-	r, _ := ex.Sol.Check([]*Term{na}, nil)
+	r, m0 := ex.Sol.Check([]*Term{na}, ex.nondet)
 	switch r {
 	case Unsat:
 		rec.Result = "holds"
@@ -957,18 +987,17 @@ func (ex *Exec) assertTerm(label string, a *Term, known string) {
 		rec.Result = "unknown"
 	case Sat:
 		rec.Result = "violated"
-		// prefer a model inside the replay ranges and with a margin
+		rec.Model = m0
+		// prefer a model inside the replay ranges and with a margin (optional refinement,
+		// short time-out: the verdict does not depend on it)
 		extra := append([]*Term{ex.marginTerm(a)}, ex.rangeTerms()...)
-		r2, m := ex.Sol.Check(extra, ex.nondet)
-		if r2 != Sat {
-			r2, m = ex.Sol.Check(append([]*Term{na}, ex.rangeTerms()...), ex.nondet)
+		if r2, m := ex.Sol.CheckQuick(extra, ex.nondet, 4000); r2 == Sat {
+			rec.Model = m
+		} else if r2, m := ex.Sol.CheckQuick(append([]*Term{na}, ex.rangeTerms()...), ex.nondet, 4000); r2 == Sat {
+			rec.Model = m
 		}
-		if r2 != Sat {
-			_, m = ex.Sol.Check([]*Term{na}, ex.nondet)
-		}
-		rec.Model = m
 		// continue the path under the assertion (if still feasible)
-		if rr, _ := ex.Sol.Check([]*Term{a}, nil); rr != Unsat {
+		if rr, _ := ex.Sol.CheckQuick([]*Term{a}, nil, 4000); rr == Sat {
 			ex.assume(a)
 		}
 	}
